@@ -139,6 +139,14 @@ Definition header_survives (r : Q) (s : smset) (d : dfile) : Prop :=
   match s_offset s with Some o => d_beat0 d == o / r | None => False end /\
   (exists x, field_num d "#SAMPLESTART"%string = Some x /\ x * 1000 == s_sstart s / r) /\
   (exists x, field_num d "#SAMPLELENGTH"%string = Some x /\ x * 1000 == s_slen s / r).
+(* the tempo list of the written text: as many points as the first chart has tempo rows (all charts carry the same rows in
+   C03's domain), and every row (offset, bpm, _) is denoted by a tempo point at offset / r ms with bpm * r *)
+Definition tempo_survives (r : Q) (s : smset) (d : dfile) : Prop :=
+  match s_maps s with
+  | c0 :: _ => length (d_tempo d) = length (c_bpms c0) /\
+               forall b, In b (c_bpms c0) -> exists tp : Q * Q * Q, In tp (d_tempo d) /\ snd tp == fst (fst b) / r /\ snd (fst tp) == snd (fst b) * r
+  | [] => False
+  end.
 End SMRate.
 
 (* ================================================================== BMS *)
